@@ -1,6 +1,6 @@
 (* Conc/PipelineRing_proofs.v — the ring buffer of the commit pipeline (statements of PipelineSpec, N1):
-   wrap-around arithmetic, the overflow refutation, the use-after-free witness and the
-   failure-free overflow theorem. *)
+   wrap-around arithmetic, the use-after-free witness and the overflow theorem (N1, failures of
+   env.write / env.apply included). *)
 From Coq Require Import List Arith Bool Lia FinFun.
 From SKV Require Import Conc.Pipeline Conc.PipelineExplore Conc.PipelineSpec.
 Import ListNotations.
@@ -113,7 +113,7 @@ Proof.
 Qed.
 End Wrap.
 
-(* ================================================================== 2./3. the two witnesses *)
+(* ================================================================== 2. the use-after-free witness *)
 Definition cfg87 : cfg := {| c_slots := 8; c_permits := 7; c_memlimit := 2; c_l0limit := 100 |}.
 
 Definition by_thr (i : nat) (ls : list label) : list (actor * label) := map (fun l => (ACommit i, l)) ls.
@@ -124,29 +124,6 @@ Definition pre (k : nat) : list label :=
    LSeqAllocated (k + 1) 1; LOraclePublished].
 (* thread 0: enqueues at position 0, WAL ok, unlocks, and is then not scheduled (batch not applied) *)
 Definition queued0 : list label := pre 0 ++ [LEnqLoaded 0 0; LEnqStored; LEnqDone; LEnqueued; LUnlocked].
-(* a commit whose env.write fails: the batch stays queued at position k behind the unapplied batch 0,
-   the committer returns the error and its permit *)
-Definition failing (k : nat) : list label :=
-  pre k ++ [LEnqLoaded k 0; LEnqStored; LEnqDone; LEnqueued; LWalFailed; LFailCompleted; LMarked; LUnlocked;
-            LDeqLoaded (k + 1) 0; LDeqSlot 0 false; LDeqChecked 0 false; LPubExit; LPublished; LRet ResErr].
-(* the committer that finds the queue full *)
-Definition panics (k : nat) : list label := pre k ++ [LEnqLoaded k 0; LEnqFull; LRet ResPanic].
-
-Definition witness_overflow : list (actor * label) :=
-  by_thr 0 queued0 ++ flat_map (fun k => by_thr k (failing k)) (seq 1 7) ++ by_thr 8 (panics 8).
-
-Definition s_overflow : plstate :=
-  Eval vm_compute in
-    match prun cfg87 (pinit cfg87 9 0 0) witness_overflow with Some s => s | None => pinit cfg87 0 0 0 end.
-Definition t_overflow : thr :=
-  Eval vm_compute in match nth_error (thrs s_overflow) 8 with Some t => t | None => thr0 end.
-
-Theorem no_overflow_refuted : no_overflow_refuted_stmt 8 7.
-Proof.
-  exists 9, witness_overflow, s_overflow, 8, t_overflow.
-  split; [vm_compute; reflexivity | split; vm_compute; reflexivity].
-Qed.
-
 (* thread 0 commits completely (position 0) *)
 Definition commit0 : list label :=
   queued0 ++ [LMemInsert 1; LAfterApply false; LMarked; LDeqLoaded 1 0; LDeqSlot 0 false; LDeqChecked 0 true;
@@ -181,7 +158,7 @@ Proof.
   apply failure_free_forallb. vm_compute. reflexivity.
 Qed.
 
-(* ================================================================== 4. the failure-free overflow theorem *)
+(* ================================================================== the invariant of N1 *)
 (* ================================================================== counting permit holders *)
 Definition b2n (b : bool) : nat := if b then 1 else 0.
 Definition cnt (ts : list thr) : nat := length (filter t_permit ts).
@@ -245,7 +222,7 @@ Definition globs (s : plstate) : glob :=
      k_sl := slotv s; k_av := avail s |}.
 Definition kL (g : glob) : nat := length (k_rs g).
 
-(* per-thread invariant, by program counter (failure-free runs: the failure pcs are unreachable) *)
+(* per-thread invariant, by program counter (a failed commit is an ordinary owner of a stored batch) *)
 Definition pcinv (N : nat) (g : glob) (i : nat) (t : thr) : Prop :=
   match t_pc t with
   | CIdle | CEntered | CStallReg _ | CStallCounted _ _ | CStallBlocked _ | CStallOk =>
@@ -254,16 +231,17 @@ Definition pcinv (N : nat) (g : glob) (i : nat) (t : thr) : Prop :=
   | CLocked | CChecked | CAlloc | COrPub | CEnqLoaded =>
       t_permit t = true /\ t_my t = None /\ k_mx g = Some i /\ kL g = k_hd g
   | CEnqStored => t_permit t = true /\ t_my t = Some (k_hd g) /\ k_mx g = Some i /\ kL g = S (k_hd g)
-  | CEnqDone | CEnqueued => k_mx g = Some i /\ kL g = k_hd g
-  | CEnqFullSeen | CEnqPanic | CWalFailed | CFailDoneLocked | CMarkedLocked | CApplyFailed | CFailDone | CRetErr => False
-  | CApplying _ | CArenaFull | CRotated | CWokeMem | CApplied | CPubTop | CDeqNone | CPubExit | CWaitDone => True
+  | CEnqDone | CEnqueued | CWalFailed | CFailDoneLocked | CMarkedLocked => k_mx g = Some i /\ kL g = k_hd g
+  | CEnqFullSeen | CEnqPanic => False
+  | CApplying _ | CArenaFull | CRotated | CWokeMem | CApplied | CApplyFailed | CFailDone
+  | CPubTop | CDeqNone | CPubExit | CWaitDone => True
   | CDeqLoaded h tl => tl < h /\ h <= kL g /\ tl <= k_tl g
   | CDeqSlot h tl p | CDeqChecked h tl p => tl < h /\ h <= kL g /\ tl <= k_tl g /\ (k_tl g = tl -> p = tl)
   | CDeqWon tl p => p = tl /\ tl < k_tl g /\ nth_error (k_sl g) (tl mod N) = Some (Some tl)
   | CDeqOwned p | CVisTop p | CVisLoaded p _ | CVisDone p | CPubHold p => p < k_tl g
-  | CReturned _ => t_permit t = false
+  | CReturned r => t_permit t = false /\ r <> ResPanic
   end.
-Definition tinv (N : nat) (g : glob) (i : nat) (t : thr) : Prop := t_err t = false /\ pcinv N g i t.
+Definition tinv (N : nat) (g : glob) (i : nat) (t : thr) : Prop := pcinv N g i t.
 
 Record InvK (N P : nat) (g : glob) (ts : list thr) : Prop := {
   I_perm : k_av g + cnt ts = P;
@@ -362,7 +340,7 @@ Lemma tinv_frame N g g' j tj :
                nth_error (k_sl g') (a mod N) = Some (Some a)) ->
   tinv N g' j tj.
 Proof.
-  unfold tinv, pcinv. intros [He Hp] Hmx HL Htl Hsl. split; [exact He |].
+  unfold tinv, pcinv. intros Hp Hmx HL Htl Hsl.
   destruct (t_pc tj) eqn:Hpc; auto;
     repeat match goal with H : _ /\ _ |- _ => destruct H end;
     try match goal with Hm : k_mx g = Some j |- _ => destruct (Hmx Hm) as (? & ? & ?) end;
@@ -439,7 +417,7 @@ Local Ltac open_case Hinv Hi s t :=
   apply invk_step with (g := globs s) (t := t); [exact Hinv | exact Hi | .. ];
   inv_facts Hinv;
   match goal with Hpc : t_pc t = _ |- _ =>
-    unfold tinv, pcinv, kL in Ht; rewrite Hpc in Ht; simpl in Ht; destruct Ht as [Herr Ht] end;
+    unfold tinv, pcinv, kL in Ht; rewrite Hpc in Ht; simpl in Ht end;
   unfold kL in *; simpl in *.
 
 Local Ltac frame_tac :=
@@ -518,13 +496,30 @@ Proof.
   - discriminate.
 Qed.
 
+Lemma pres_unlocked_failed c s i t :
+  Inv c s -> nth_error (thrs s) i = Some t -> t_pc t = CMarkedLocked ->
+  Inv c (put_thr (st_mutex s None) i (with_pc t CPubTop)).
+Proof.
+  intros Hinv Hi Hpc. open_case Hinv Hi s t.
+  - reflexivity.
+  - assumption.
+  - assumption.
+  - intros _. tauto.
+  - unfold tinv, pcinv, kL; simpl. intuition.
+  - frame_tac; auto. destruct Ht as (Hm & _). intros E. rewrite E in Hm. congruence.
+  - intros q Hq. left. auto.
+  - assumption.
+  - assumption.
+  - discriminate.
+Qed.
+
 (* enqueue never finds the queue full: the caller holds a permit and has no batch queued yet *)
 Lemma no_full c s i t :
   c_permits c < c_slots c -> Inv c s -> nth_error (thrs s) i = Some t -> t_pc t = COrPub ->
   qtail s + c_slots c <> qhead s.
 Proof.
   intros HPN Hinv Hi Hpc. pose proof (I_thr _ _ _ _ Hinv _ _ Hi) as Ht.
-  unfold tinv, pcinv in Ht. rewrite Hpc in Ht. destruct Ht as (_ & Hp & Hm & _ & HL).
+  unfold tinv, pcinv in Ht. rewrite Hpc in Ht. destruct Ht as (Hp & Hm & _ & HL).
   pose proof (invk_bound_strict _ _ _ _ i t Hinv Hi Hm Hp) as Hb.
   pose proof (I_tail _ _ _ _ Hinv) as Htl. simpl in *. lia.
 Qed.
@@ -569,7 +564,7 @@ Proof.
   apply (inv_put _ s); [reflexivity |].
   apply invk_pure with (t := t); [exact Hinv | exact Hi | reflexivity | reflexivity | | simpl; intros; congruence].
   unfold tinv, pcinv, kL, get_slot, slot_ix in *. rewrite Hpc in Ht. simpl in *.
-  destruct Ht as (He & H1 & H2 & H3). repeat split; auto.
+  destruct Ht as (H1 & H2 & H3). repeat split; auto.
   intros E. specialize (Fring t0). rewrite Fring in Hslot by lia. congruence.
 Qed.
 
@@ -625,15 +620,15 @@ Proof.
   - intros q r0 Hq Hr. rewrite E2, nth_error_set_nth_neq in Hr by lia. eauto.
 Qed.
 
-Lemma pres_pubcompleted c s i t p b :
+Lemma pres_pubcompleted c s i t p b x :
   Inv c s -> nth_error (thrs s) i = Some t -> t_pc t = CVisDone p ->
-  Inv c (put_thr (put_b s p (complete b true)) i (with_pc t (CPubHold p))).
+  Inv c (put_thr (put_b s p (complete b x)) i (with_pc t (CPubHold p))).
 Proof.
   intros Hinv Hi Hpc. pose proof (I_thr _ _ _ _ Hinv _ _ Hi) as Ht.
-  unfold tinv, pcinv in Ht. rewrite Hpc in Ht. destruct Ht as [Herr Ht].
+  unfold tinv, pcinv in Ht. rewrite Hpc in Ht.
   apply (inv_put _ s); [reflexivity |].
   apply invk_pure with (t := t); [ | exact Hi | reflexivity | reflexivity | | simpl; intros; congruence].
-  - apply (invk_res_below _ _ (globs s) _ _ p (b_res (complete b true))); auto.
+  - apply (invk_res_below _ _ (globs s) _ _ p (b_res (complete b x))); auto.
     simpl. apply map_set_nth.
   - unfold tinv, pcinv; simpl. auto.
 Qed.
@@ -644,12 +639,11 @@ Lemma invk_return N P g g' ts i t r :
   k_av g' = k_av g + b2n (t_permit t) -> k_rs g' = k_rs g -> k_hd g' = k_hd g -> k_tl g' = k_tl g ->
   k_sl g' = k_sl g ->
   (k_mx g' = k_mx g \/ (k_mx g' = None /\ k_mx g = Some i /\ kL g = k_hd g)) ->
-  (forall q, t_my t = Some q -> q < k_tl g) ->
+  (forall q, t_my t = Some q -> q < k_tl g) -> r <> ResPanic ->
   InvK N P g' (set_nth i (with_permit (with_pc t (CReturned r)) false) ts).
 Proof.
-  intros H Hi Eav Ers Ehd Etl Esl Hmx Hmy.
+  intros H Hi Eav Ers Ehd Etl Esl Hmx Hmy Hr.
   assert (EL : kL g' = kL g) by (unfold kL; rewrite Ers; reflexivity).
-  pose proof (I_thr _ _ _ _ H _ _ Hi) as [Herr _].
   apply invk_step with (g := g) (t := t); auto; rewrite ?EL, ?Ers, ?Ehd, ?Etl, ?Esl; try apply H.
   - simpl. lia.
   - destruct Hmx as [-> | (-> & _ & E)]; [apply H | auto].
@@ -665,10 +659,10 @@ Lemma pres_return c s s0 i t r :
   thrs s0 = thrs s -> qlog s0 = qlog s -> qhead s0 = qhead s -> qtail s0 = qtail s ->
   slotv s0 = slotv s -> avail s0 = avail s ->
   (mutex s0 = mutex s \/ (mutex s0 = None /\ mutex s = Some i /\ length (qlog s) = qhead s)) ->
-  (forall q, t_my t = Some q -> q < qtail s) ->
+  (forall q, t_my t = Some q -> q < qtail s) -> r <> ResPanic ->
   Inv c (do_return s0 i t r).
 Proof.
-  intros Hinv Hi E1 E2 E3 E4 E5 E6 Hmx Hmy. unfold do_return.
+  intros Hinv Hi E1 E2 E3 E4 E5 E6 Hmx Hmy Hr. unfold do_return.
   set (s1 := if t_permit t then st_avail s0 (S (avail s0)) else s0).
   assert (G1 : globs s1 = {| k_mx := mutex s0; k_rs := map b_res (qlog s); k_hd := qhead s; k_tl := qtail s;
                              k_sl := slotv s; k_av := avail s + b2n (t_permit t) |}).
@@ -698,14 +692,14 @@ Qed.
 Local Ltac ht_false Ht Hpc := exfalso; unfold tinv, pcinv in Ht; rewrite Hpc in Ht; tauto.
 Local Ltac ht_open Ht Hpc := unfold tinv, pcinv, kL in Ht; rewrite Hpc in Ht; simpl in Ht.
 
-Theorem step_commit_inv c l : failure_label l = false -> pres c l.
+Theorem step_commit_inv c l : pres c l.
 Proof.
-  intros Hfl s i t s' HPN Hinv Hi.
+  intros s i t s' HPN Hinv Hi.
   pose proof (I_thr _ _ _ _ Hinv i t Hi) as Ht.
   pose proof (I_tail _ _ _ _ Hinv) as Htail.
   pose proof (I_len _ _ _ _ Hinv) as Hlen.
   unfold step_commit.
-  destruct l; cbv beta iota zeta; try discriminate Hfl;
+  destruct l; cbv beta iota zeta;
     destruct (t_pc t) eqn:Hpc; try (intro; discriminate).
   all: start_case.
   all: try assumption.
@@ -714,14 +708,15 @@ Proof.
   all: try solve [fin_pure Hinv Hi s t].
   all: subst.
   all: try solve [eapply pres_sem; eauto | eapply pres_locked; eauto | eapply pres_enqstored; eauto
-                 | eapply pres_enqdone; eauto | eapply pres_unlocked; eauto | eapply pres_deqslot; eauto
+                 | eapply pres_enqdone; eauto | eapply pres_unlocked; eauto | eapply pres_unlocked_failed; eauto | eapply pres_deqslot; eauto
                  | eapply pres_deqcas; eauto | eapply pres_deqcleared; eauto | eapply pres_pubcompleted; eauto ].
   all: try solve [exfalso; norm_hyps; eapply no_full; eauto].
-  all: try solve [eapply pres_return; eauto; ht_open Ht Hpc; intuition congruence].
-  - eapply pres_return; eauto.
+  all: try solve [eapply pres_return; eauto; try discriminate; ht_open Ht Hpc; intuition congruence].
+  - eapply pres_return; eauto; [| | discriminate].
     + right. ht_open Ht Hpc. rewrite map_length in Ht. simpl. tauto.
-    + ht_open Ht Hpc. intros q Hq. destruct Ht as (_ & _ & Hm & _). congruence.
-  - eapply pres_return; eauto. eapply completed_left_queue; eauto.
+    + ht_open Ht Hpc. intros q Hq. destruct Ht as (_ & Hm & _). congruence.
+  - eapply pres_return; eauto; [| discriminate]. eapply completed_left_queue; eauto.
+  - eapply pres_return; eauto; [| discriminate]. eapply completed_left_queue; eauto.
 Qed.
 
 (* the other actors do not touch the part of the state the invariant talks about *)
@@ -756,11 +751,11 @@ Proof.
 Qed.
 
 Lemma pstep_inv c s a l s' :
-  c_permits c < c_slots c -> failure_label l = false -> Inv c s -> pstep c s a l = Some s' -> Inv c s'.
+  c_permits c < c_slots c -> Inv c s -> pstep c s a l = Some s' -> Inv c s'.
 Proof.
-  intros HPN Hfl Hinv. unfold pstep. destruct a as [i | i | | | |].
+  intros HPN Hinv. unfold pstep. destruct a as [i | i | | | |].
   - unfold get_thr. destruct (nth_error (thrs s) i) as [t |] eqn:Hi; [| discriminate].
-    intros H. exact (step_commit_inv c l Hfl s i t s' HPN Hinv Hi H).
+    intros H. exact (step_commit_inv c l s i t s' HPN Hinv Hi H).
   - destruct (nth_error (rdrs s) i) as [r |]; [| discriminate].
     intros H. eapply inv_same; [eapply step_reader_same; eauto | assumption].
   - intros H. eapply inv_same; [eapply step_flush_same; eauto | assumption].
@@ -781,29 +776,23 @@ Proof.
   - intros i j ti tj a p a' p' Hi _ Hp. apply nth_error_repeat in Hi. subst ti. discriminate.
 Qed.
 
-Lemma failure_free_cons a l evs : failure_free ((a, l) :: evs) -> failure_label l = false /\ failure_free evs.
-Proof.
-  intros H. split; [apply (H a); left; reflexivity |]. intros a' l' Hin. apply (H a'). right. exact Hin.
-Qed.
-
 Lemma prun_inv c evs : c_permits c < c_slots c ->
-  forall s s', Inv c s -> prun c s evs = Some s' -> failure_free evs -> Inv c s'.
+  forall s s', Inv c s -> prun c s evs = Some s' -> Inv c s'.
 Proof.
-  intros HPN. induction evs as [| [a l] evs IH]; intros s s' Hinv Hrun Hff; simpl in Hrun.
+  intros HPN. induction evs as [| [a l] evs IH]; intros s s' Hinv Hrun; simpl in Hrun.
   - injection Hrun as <-. exact Hinv.
-  - apply failure_free_cons in Hff. destruct Hff as [Hfl Hff].
-    destruct (pstep c s a l) as [s1 |] eqn:Hstep; [| discriminate].
+  - destruct (pstep c s a l) as [s1 |] eqn:Hstep; [| discriminate].
     apply (IH s1 s'); auto. eapply pstep_inv; eauto.
 Qed.
 
-(* ================================================================== 4. no overflow in failure-free runs *)
-Theorem no_overflow_partial : no_overflow_partial_stmt.
+(* ================================================================== 3. N1: no overflow, failures included *)
+Theorem no_overflow : no_overflow_stmt.
 Proof.
-  intros c n m v evs s HPN Hrun Hff.
+  intros c n m v s HPN [evs Hrun].
   assert (Hinv : Inv c s) by (eapply prun_inv; eauto; apply inv_init).
   split.
   - pose proof (invk_bound _ _ _ _ Hinv) as Hb. pose proof (I_len _ _ _ _ Hinv) as Hl.
     unfold kL in *. simpl in *. lia.
-  - intros i t Hi Hpc. pose proof (I_thr _ _ _ _ Hinv _ _ Hi) as Ht.
-    unfold tinv, pcinv in Ht. rewrite Hpc in Ht. tauto.
+  - intros i t Hi. pose proof (I_thr _ _ _ _ Hinv _ _ Hi) as Ht.
+    unfold tinv, pcinv in Ht. repeat split; intros Hpc; rewrite Hpc in Ht; tauto.
 Qed.
